@@ -703,6 +703,12 @@ func (a *Analysis) upper(v ssa.Value, at *ssa.BasicBlock, depth int, seen map[ss
 		}
 	case *ssa.Phi:
 		// maximum over incoming values; a cycle makes it unbounded unless a fact above bounded it
+		// n = n<<8 | byte, once per element of a fixed-size array (or for a
+		// constant number of iterations): n < 2^(8*count)
+		if cnt, ok := shiftOrAccumulation(x); ok && cnt <= 7 {
+			better(Bound{Kind: ConstB, C: 1<<(8*uint(cnt)) - 1, Why: fmt.Sprintf("big-endian accumulation of %d bytes", cnt)})
+			break
+		}
 		var agg Bound
 		ok := true
 		for i, e := range x.Edges {
@@ -931,7 +937,7 @@ func (a *Analysis) decideAlloc(o *Obl, ub Bound, fn *ssa.Function) {
 func (a *Analysis) paramNotConst(fn *ssa.Function, pname string) string {
 	idx := -1
 	for i, p := range fn.Params {
-		if p.Name() == pname {
+		if p.Name() == pname || prov.CanonParam(fn, p.Name()) == pname || "param:"+prov.CanonParam(fn, p.Name()) == pname {
 			idx = i
 		}
 	}
@@ -1724,4 +1730,69 @@ func realUseBlocks(v ssa.Value) []*ssa.BasicBlock {
 	}
 	walk(v, 0)
 	return out
+}
+
+// shiftOrAccumulation: p is the accumulator of a loop "n = n<<8 | int(b)" with
+// b of type byte, starting at 0, whose header runs a +1 counter against a
+// constant bound; returns that bound (the number of iterations).
+func shiftOrAccumulation(p *ssa.Phi) (int64, bool) {
+	if len(p.Edges) != 2 {
+		return 0, false
+	}
+	zero, upd := false, false
+	for _, e := range p.Edges {
+		switch x := e.(type) {
+		case *ssa.Const:
+			if c, ok := constOf(x); ok && c == 0 {
+				zero = true
+			}
+		case *ssa.BinOp:
+			if x.Op != token.OR {
+				continue
+			}
+			for _, pair := range [][2]ssa.Value{{x.X, x.Y}, {x.Y, x.X}} {
+				sh, ok := pair[0].(*ssa.BinOp)
+				if !ok || sh.Op != token.SHL || sh.X != ssa.Value(p) {
+					continue
+				}
+				if c, ok := constOf(sh.Y); !ok || c != 8 {
+					continue
+				}
+				cv, ok := pair[1].(*ssa.Convert)
+				if !ok {
+					continue
+				}
+				if bt, ok := cv.X.Type().Underlying().(*types.Basic); ok && bt.Kind() == types.Uint8 {
+					upd = true
+				}
+			}
+		}
+	}
+	if !zero || !upd {
+		return 0, false
+	}
+	ifi, ok := p.Block().Instrs[len(p.Block().Instrs)-1].(*ssa.If)
+	if !ok {
+		return 0, false
+	}
+	c, ok := ifi.Cond.(*ssa.BinOp)
+	if !ok || c.Op != token.LSS {
+		return 0, false
+	}
+	n, ok := constOf(c.Y)
+	if !ok {
+		return 0, false
+	}
+	// the counter: phi(-1|+1) compared after increment (range loop), or phi(0|+1)
+	switch x := c.X.(type) {
+	case *ssa.BinOp:
+		if ph, ok := x.X.(*ssa.Phi); ok && x.Op == token.ADD && ph.Block() == p.Block() {
+			return int64(n), true
+		}
+	case *ssa.Phi:
+		if x.Block() == p.Block() {
+			return int64(n), true
+		}
+	}
+	return 0, false
 }
